@@ -770,4 +770,12 @@ theorem nrun_inv {s : State} (hi : NInv s) (ops : List Nsq.Model.ChanNsqd.Op) (h
   | cons op ops ih =>
     exact ih (nstep_inv hi op (hapi op List.mem_cons_self)) (fun o ho => hapi o (List.mem_cons_of_mem _ ho))
 
+theorem ensureTopic_has (s : State) (t : Nat) : ∃ y ∈ (ensureTopic s t).topics, y.tid = t := by
+  unfold ensureTopic
+  split
+  · rename_i tp hf
+    exact ⟨tp, (findT_some hf).1, (findT_some hf).2⟩
+  · exact ⟨{ tid := t, memCap := s.conf.memq }, by simp, rfl⟩
+
+
 end Nsq.Proofs.ChanNsqd
